@@ -150,6 +150,202 @@ impl TcpStream {
     pub fn local_addr(&self) -> io::Result<SocketAddr> {
         Ok(SocketAddr::new(IpAddr::V4(std::net::Ipv4Addr::new(127, 0, 0, 1)), 6379))
     }
+
+    pub fn set_linger(&self, _d: Option<std::time::Duration>) -> io::Result<()> {
+        Ok(())
+    }
+
+    pub fn nodelay(&self) -> io::Result<bool> {
+        Ok(true)
+    }
+
+    /// Non-blocking read: what has arrived, or `WouldBlock`.
+    pub fn try_read(&self, buf: &mut [u8]) -> io::Result<usize> {
+        match self.ep.poll_read(buf, || Waiter::Waker(noop_waker())) {
+            Poll::Ready(r) => r,
+            Poll::Pending => Err(io::ErrorKind::WouldBlock.into()),
+        }
+    }
+
+    pub fn try_read_buf<B: bytes::BufMut>(&self, buf: &mut B) -> io::Result<usize> {
+        let want = buf.remaining_mut().min(64 * 1024);
+        if want == 0 {
+            return Ok(0);
+        }
+        let mut tmp = vec![0u8; want];
+        let n = self.try_read(&mut tmp)?;
+        buf.put_slice(&tmp[..n]);
+        Ok(n)
+    }
+
+    pub fn try_write(&self, data: &[u8]) -> io::Result<usize> {
+        match self.ep.poll_write(data, || Waiter::Waker(noop_waker())) {
+            Poll::Ready(r) => r,
+            Poll::Pending => Err(io::ErrorKind::WouldBlock.into()),
+        }
+    }
+
+    pub async fn readable(&self) -> io::Result<()> {
+        struct R<'a>(&'a Endpoint);
+        impl Future for R<'_> {
+            type Output = io::Result<()>;
+            fn poll(self: Pin<&mut Self>, cx: &mut Context<'_>) -> Poll<Self::Output> {
+                self.0.poll_read_ready(|| Waiter::Waker(cx.waker().clone()))
+            }
+        }
+        R(&self.ep).await
+    }
+
+    pub async fn writable(&self) -> io::Result<()> {
+        struct W<'a>(&'a Endpoint);
+        impl Future for W<'_> {
+            type Output = io::Result<()>;
+            fn poll(self: Pin<&mut Self>, cx: &mut Context<'_>) -> Poll<Self::Output> {
+                self.0.poll_write_ready(|| Waiter::Waker(cx.waker().clone()))
+            }
+        }
+        W(&self.ep).await
+    }
+
+    pub fn poll_read_ready(&self, cx: &mut Context<'_>) -> Poll<io::Result<()>> {
+        self.ep.poll_read_ready(|| Waiter::Waker(cx.waker().clone()))
+    }
+
+    pub fn poll_write_ready(&self, cx: &mut Context<'_>) -> Poll<io::Result<()>> {
+        self.ep.poll_write_ready(|| Waiter::Waker(cx.waker().clone()))
+    }
+
+    /// Owned halves, as `tokio::net::TcpStream::into_split` (the connection closes when both
+    /// halves are gone; dropping the write half alone closes the sending direction).
+    pub fn into_split(self) -> (tcp::OwnedReadHalf, tcp::OwnedWriteHalf) {
+        let shared = std::sync::Arc::new(self);
+        (tcp::OwnedReadHalf { inner: shared.clone() }, tcp::OwnedWriteHalf { inner: shared, shutdown_on_drop: true })
+    }
+
+    /// Borrowed halves, as `tokio::net::TcpStream::split`.
+    pub fn split(&mut self) -> (tcp::ReadHalf<'_>, tcp::WriteHalf<'_>) {
+        let s: &TcpStream = &*self;
+        (tcp::ReadHalf { inner: s }, tcp::WriteHalf { inner: s })
+    }
+
+    fn poll_read_shared(&self, cx: &mut Context<'_>, buf: &mut ReadBuf<'_>) -> Poll<io::Result<()>> {
+        let dst = buf.initialize_unfilled();
+        match self.ep.poll_read(dst, || Waiter::Waker(cx.waker().clone())) {
+            Poll::Ready(Ok(n)) => {
+                buf.advance(n);
+                Poll::Ready(Ok(()))
+            }
+            Poll::Ready(Err(e)) => Poll::Ready(Err(e)),
+            Poll::Pending => Poll::Pending,
+        }
+    }
+}
+
+fn noop_waker() -> std::task::Waker {
+    struct Noop;
+    impl std::task::Wake for Noop {
+        fn wake(self: std::sync::Arc<Self>) {}
+    }
+    std::task::Waker::from(std::sync::Arc::new(Noop))
+}
+
+/// `tokio::net::tcp`: the split halves.
+pub mod tcp {
+    use super::*;
+
+    pub struct OwnedReadHalf {
+        pub(super) inner: std::sync::Arc<TcpStream>,
+    }
+    pub struct OwnedWriteHalf {
+        pub(super) inner: std::sync::Arc<TcpStream>,
+        pub(super) shutdown_on_drop: bool,
+    }
+    pub struct ReadHalf<'a> {
+        pub(super) inner: &'a TcpStream,
+    }
+    pub struct WriteHalf<'a> {
+        pub(super) inner: &'a TcpStream,
+    }
+
+    impl OwnedReadHalf {
+        pub fn peer_addr(&self) -> io::Result<SocketAddr> {
+            self.inner.peer_addr()
+        }
+        pub fn local_addr(&self) -> io::Result<SocketAddr> {
+            self.inner.local_addr()
+        }
+        pub fn try_read(&self, buf: &mut [u8]) -> io::Result<usize> {
+            self.inner.try_read(buf)
+        }
+        pub async fn readable(&self) -> io::Result<()> {
+            self.inner.readable().await
+        }
+    }
+    impl OwnedWriteHalf {
+        pub fn peer_addr(&self) -> io::Result<SocketAddr> {
+            self.inner.peer_addr()
+        }
+        pub fn local_addr(&self) -> io::Result<SocketAddr> {
+            self.inner.local_addr()
+        }
+        pub fn try_write(&self, data: &[u8]) -> io::Result<usize> {
+            self.inner.try_write(data)
+        }
+        pub async fn writable(&self) -> io::Result<()> {
+            self.inner.writable().await
+        }
+        /// Drop the half without shutting the sending direction down.
+        pub fn forget(mut self) {
+            self.shutdown_on_drop = false;
+        }
+    }
+    impl Drop for OwnedWriteHalf {
+        fn drop(&mut self) {
+            if self.shutdown_on_drop {
+                self.inner.ep.shutdown_write();
+            }
+        }
+    }
+    impl std::fmt::Debug for OwnedReadHalf {
+        fn fmt(&self, f: &mut std::fmt::Formatter<'_>) -> std::fmt::Result {
+            write!(f, "OwnedReadHalf({:?})", self.inner)
+        }
+    }
+    impl std::fmt::Debug for OwnedWriteHalf {
+        fn fmt(&self, f: &mut std::fmt::Formatter<'_>) -> std::fmt::Result {
+            write!(f, "OwnedWriteHalf({:?})", self.inner)
+        }
+    }
+
+    macro_rules! read_half {
+        ($t:ty) => {
+            impl AsyncRead for $t {
+                fn poll_read(self: Pin<&mut Self>, cx: &mut Context<'_>, buf: &mut ReadBuf<'_>) -> Poll<io::Result<()>> {
+                    self.inner.poll_read_shared(cx, buf)
+                }
+            }
+        };
+    }
+    macro_rules! write_half {
+        ($t:ty) => {
+            impl AsyncWrite for $t {
+                fn poll_write(self: Pin<&mut Self>, cx: &mut Context<'_>, data: &[u8]) -> Poll<io::Result<usize>> {
+                    self.inner.ep.poll_write(data, || Waiter::Waker(cx.waker().clone()))
+                }
+                fn poll_flush(self: Pin<&mut Self>, _cx: &mut Context<'_>) -> Poll<io::Result<()>> {
+                    Poll::Ready(Ok(()))
+                }
+                fn poll_shutdown(self: Pin<&mut Self>, _cx: &mut Context<'_>) -> Poll<io::Result<()>> {
+                    self.inner.ep.shutdown_write();
+                    Poll::Ready(Ok(()))
+                }
+            }
+        };
+    }
+    read_half!(OwnedReadHalf);
+    read_half!(ReadHalf<'_>);
+    write_half!(OwnedWriteHalf);
+    write_half!(WriteHalf<'_>);
 }
 
 impl std::fmt::Debug for TcpStream {
